@@ -319,7 +319,10 @@ func (dr DateRange) ParseError() error {
 
 func (dr DateRange) String() string {
 	start, end := dr.StartAndEndDates()
-	if start.Equals(end) {
+
+	// Is() must be used here rather than Equals(). Equals() would also be true
+	// for "Bet. 3 Sep 1943 and Bef. Oct 1943" and the end date would be lost.
+	if start.Is(end) {
 		return start.String()
 	}
 
